@@ -3,6 +3,7 @@ package props
 import (
 	"fmt"
 	"math"
+	"strings"
 	"time"
 
 	"github.com/aukilabs/hagall-common/messages/hagallpb"
@@ -207,6 +208,120 @@ func partRealBinaryDefaults(c *check.Ctx, a *acc, prop string) {
 			rf([]string{"C08"}, "idle/disconnected-early", "real binary started with HAGALL_CLIENT_IDLE_TIMEOUT=2s: a silent client was disconnected after %v", closedAt)
 		}
 		c.Coverage["real_binary_idle_disconnect_after"] = closedAt.String()
+		// an offender in another session jams its own send path (1200 list requests
+		// whose answers it never reads), then closes: FIN, then RST while the server
+		// still has writes pending for it. The process and the other session live on.
+		O := scen.MustDial(p, "")
+		O.SetReadBuffer(8 << 10)
+		if _, _, err := O.Join(""); err != nil {
+			panic(err)
+		}
+		ot, err := O.AddType("jam")
+		if err != nil {
+			panic(err)
+		}
+		oe, err := O.AddEntity(true, 0)
+		if err != nil {
+			panic(err)
+		}
+		// (a 9 KB component: every list answer is large, the send path fills up)
+		if _, err := O.AddComp(ot, oe, string(make([]byte, 9000))); err != nil {
+			panic(err)
+		}
+		O.StopReading()
+		for i := 0; i < 1200; i++ {
+			if O.Send(&hagallpb.EntityComponentListRequest{Type: d.TCompListReq, Timestamp: d.NewTag(), RequestId: O.NextReqID(), EntityComponentTypeId: ot}) != nil {
+				break
+			}
+		}
+		// bounded wait until the server is stuck sending to the offender
+		for i := 0; i < 100; i++ {
+			if dump, err := p.Goroutines(); err == nil && strings.Contains(dump, "(*handler).sendMsg(") {
+				break
+			}
+			A.Barrier() // (the idle timeout is 2 s: the witness keeps talking)
+			time.Sleep(50 * time.Millisecond)
+		}
+		A.Barrier()
+		O.HalfClose()
+		time.Sleep(300 * time.Millisecond)
+		O.Abort()
+		O.ResumeReading()
+		// the server gives up on the offender within the idle timeout (2 s) at the
+		// latest and then writes to the reset socket once more; the witness talks on
+		for i := 0; i < 12 && p.Alive(); i++ {
+			if _, err := A.Barrier(); err != nil {
+				break
+			}
+			time.Sleep(300 * time.Millisecond)
+		}
+		evaluations++
+		if !p.Alive() {
+			rf([]string{"C08"}, "process/exited", "real binary: after a client with 1200 unread answers closed its connection (FIN, then RST) the server process ended: %s\n%s", p.ExitInfo(), p.CrashHead(3000))
+			return
+		}
+		if _, err := A.Barrier(); err != nil {
+			rf([]string{"C08"}, "witness/other-session-affected", "real binary: after a client with 1200 unread answers closed its connection (FIN, then RST) a member of another session is no longer served: %v; process: alive=%v %s", err, p.Alive(), p.LogTail(1500))
+			return
+		}
+	}
+	if prop == "C11" {
+		// the frame duration given through the environment reaches the sessions: with
+		// 400 ms frames, 12 updates spread over 180 ms end up in one or two relays
+		p2, stop2, err := startReal(c, sut.RealOpts{Defaults: true, Env: []string{"HAGALL_FRAME_DURATION=400ms"}, Name: "realframe"})
+		if err != nil {
+			c.Inconc(err.Error())
+		} else {
+			defer stop2()
+			X, Y := scen.MustDial(p2, ""), scen.MustDial(p2, "")
+			defer X.Close()
+			defer Y.Close()
+			if _, _, err := X.Join(""); err != nil {
+				panic(err)
+			}
+			if _, _, err := Y.Join(X.SID); err != nil {
+				panic(err)
+			}
+			xe, err := X.AddEntity(true, 0)
+			if err != nil || xe == 0 {
+				panic("entity add")
+			}
+			Y.Barrier()
+			for round := 0; round < c.Pick(3, 12); round++ {
+				mark := len(Y.LogCopy())
+				base := float32(5000 * (round + 1))
+				t0 := time.Now()
+				for k := 1; k <= 12; k++ {
+					X.Pose(xe, base+float32(k))
+					time.Sleep(15 * time.Millisecond)
+				}
+				span := time.Since(t0)
+				var got []float32
+				for i := 0; i < 600; i++ {
+					Y.Barrier()
+					got = got[:0]
+					for _, ev := range Y.LogCopy()[mark:] {
+						if pb, ok := ev.M.(*hagallpb.EntityUpdatePoseBroadcast); ok && pb.EntityId == xe {
+							got = append(got, pb.Pose.GetPx())
+						}
+					}
+					if len(got) > 0 && got[len(got)-1] == base+12 {
+						break
+					}
+					time.Sleep(5 * time.Millisecond)
+				}
+				evaluations++
+				frames := int(math.Ceil(float64(span)/float64(400*time.Millisecond))) + 1
+				if len(got) == 0 || got[len(got)-1] != base+12 {
+					rf([]string{"C11"}, "pose/latest-never-relayed", "real binary with HAGALL_FRAME_DURATION=400ms: the last of 12 updates was not relayed within 3 s: %v", got)
+					break
+				}
+				if len(got) > frames {
+					rf([]string{"C11"}, "pose/not-coalesced-per-frame", "real binary started with HAGALL_FRAME_DURATION=400ms: 12 updates sent within %v were relayed as %d messages (at most %d frames of 400 ms can have ended): the configured frame duration does not reach the sessions: %v", span, len(got), frames, got)
+					break
+				}
+			}
+		}
 	}
 	a.add(evaluations, evaluations, "E7: the real binary with cmd/main.go's default frame duration and the idle timeout given through its environment variable: per-frame coalescing and arrival of the latest pose (C11) / idle disconnection of a silent client and survival of a sending one (C08)",
 		map[string]any{"engine": "E7 real binary defaults", "property": prop, "evaluations": evaluations})
